@@ -123,6 +123,8 @@ class C05Monitor:
             logs = ev["logs"]
             for log in logs:
                 self.ledger.apply(log)
+                self.__dict__.setdefault("returned_ids", set()).add(id(log))
+                self.__dict__.setdefault("keep", []).append(log)
                 if log.buy_agent_id == log.sell_agent_id:
                     self.self_trades += 1
                 if self.in_hft:
@@ -139,8 +141,19 @@ class C05Monitor:
                 self._compare_agent(a, a.get_cash_amount(), dict(a.asset_volumes), "consulted")
         elif k == "log_write" and type(ev["log"]).__name__ in ("MarketStepBeginLog", "MarketStepEndLog", "SessionEndLog"):
             self._compare_all(type(ev["log"]).__name__)
+        elif k == "log_write" and type(ev["log"]).__name__ == "ExecutionLog":
+            self.__dict__.setdefault("logged_fills", []).append(ev["log"])
         elif k == "runner_run_ret":
             self._compare_all("end")
+            # the fills reported to the logger are the fills the holdings were folded with (returned by the rounds)
+            rep = self.__dict__.get("logged_fills")
+            if rep is not None and self.ledger.ready:
+                returned = self.__dict__.get("returned_ids", set())
+                lost = [l for l in rep if id(l) not in returned]
+                if lost:
+                    self.res.violation("holdings", "holdings-differ-from-endowment-folded-with-fills:reported-but-not-settled",
+                                       {"fills_reported_to_the_logger": len(rep), "fills_settled": len(returned),
+                                        "first_unsettled": taps.snap_log(lost[0])})
 
     def finish(self, case):
         res = self.res
